@@ -8,6 +8,7 @@ import ITree.Model.SegMach
 import ITree.Model.Check
 import ITree.Model.SegCheck
 import ITree.Model.Arena
+import ITree.Model.ArenaTrace
 /-!
 # Line-protocol driver: evaluates the model definitions (the ones the theorems are about)
 
@@ -550,6 +551,52 @@ def arenaOp (isKey : Bool) (op : Toks) (a : Arena Int) : Option (Arena Int × St
     pure (a', showOptInt r)
   | _, _ => none
 
+/-- callbacks of one operation of the expiring tree, run by the instrumented arena model -/
+def arenaTrace (op : Toks) (a : Arena Int) : Option (List (AEv Int)) :=
+  match op with
+  | ["insert", k, x, v, t] => do
+    let k ← tokInt k; let x ← tokInt x; let v ← tokInt v; let t ← tokInt t
+    let (_, tr) ← a.kInsertT ⟨k, x, v⟩ t
+    pure tr
+  | ["export", t] => do
+    let t ← tokInt t
+    let (_, _, _, tr) ← a.kExportT t
+    pure tr
+  | [m, t, k] => do
+    let (mode, by_) ← (match m with
+      | "fl" => some (Mode.fl, false) | "fle" => some (Mode.fle, false) | "fleby" => some (Mode.fle, true)
+      | "get" => some (Mode.get, false) | _ => none)
+    let t ← tokInt t; let k ← tokInt k
+    let f : Int → Ordering := if by_ then cmpQ k else fun x => compare x k
+    let (_, _, tr) ← a.kQueryT mode t f
+    pure tr
+  | _ => none
+
+/-- a panic injected into callback `k` (C18 at the pointer level): the arena the instrumented pointer-code
+model records for that callback; `wf` also requires that its abstraction is the state the zipper model records
+for the same callback (`TrRep`, proved in `Lemmas/ArenaTrace.lean`, observed here per injection) -/
+def runArenaInj (coll : String) (op : Toks) (a : Arena Int) (k : Nat) : String :=
+  let base := (coll.drop 1).toString
+  match a.absP with
+  | none => "wf=0:abs | out=FAULT | st=- | tr="
+  | some st =>
+    if base != "key" then
+      -- map / set: every callback precedes the first write
+      s!"wf=1 | out=panic | st={showArena a} | tr="
+    else if !(a.garbageOK st.tree.slots && a.zeroOK) then "wf=0:garbage | out=FAULT | st=- | tr=" else
+    match arenaTrace op a with
+    | none => "wf=1 | out=FAULT | st=- | tr="
+    | some tr =>
+      match tr.reverse[k]? with
+      | none => "wf=1 | out=no-such-callback | st=- | tr="
+      | some ae =>
+        let z := runTree base op st (some k)
+        let absStr := match ae.arena.abs with
+          | some st' => showSt st'
+          | none => "ABSFAIL"
+        let ok := fieldOf "st" z == absStr && fieldOf "wf" z == "1" && fieldOf "out" z == "panic"
+        s!"wf={if ok then "1" else "0:refine-trace"} | out=panic | st={showArena ae.arena} | tr="
+
 /-- arena request: the answer carries the raw arena; `wf` reports whether the arena model agrees
 with the zipper model on the abstraction of the same pre-state (refinement, checked per transition) -/
 def runArena (coll : String) (op : Toks) (a : Arena Int) : String :=
@@ -615,7 +662,9 @@ def process (line : String) : String :=
         | some c => s!"wf=1 | out=ok | st={showArena (Arena.new c dflt)} | tr="
         | none => "BAD"
       | _ => match parseArena dflt stToks with
-        | some a => runArena coll op a
+        | some a => match rest.findSome? (fun seg => match seg with | ["inj", k] => tokNat k | _ => none) with
+          | some k => runArenaInj coll op a k
+          | none => runArena coll op a
         | none => "BADSTATE"
     else if coll == "seg" then
       match op with
